@@ -246,7 +246,7 @@ impl DiagnosticMessage for Error {
                     "invalid escape character: {}",
                     ch.map_or_else(|| "none".to_string(), |ch| ch.to_string())
                 ),
-                Span::new(*start, *start + 1),
+                Span::new(*start, *start + ch.map_or(1, char::len_utf8)),
             )],
 
             UnicodeEscape { start, end } => vec![Label::primary(
